@@ -408,19 +408,19 @@ var wfAssume = []string{
 func init() {
 	wfProperty("C01", "exploration",
 		"rapid-generated well-formed Wire programs (random DAG of provided types over 1-4 packages; provider functions with cleanup/error/variadic, wire.Struct incl. \"*\", legacy literals and prevent tags, values, interface values, bindings, field providers incl. pointer-to-field, nested named/inline/aliased sets, 1-3 injectors, ~30 type shapes) are run through `wire gen`; for every accepted program the generated file is parsed (each injector exactly once) and the package is compiled without the wireinject tag together with a driver holding `var _ func(P...) (R...) = InjectK` for every injector. Non-trivial = accepted, >=1 provider call and one of {error path, >=2 packages, variadic, value, struct/field/binding step}; distinct by program hash.",
-		func(c *Ctx) WFOpts { return WFOpts{} },
+		func(c *Ctx) WFOpts { return WFOpts{Names: 30} },
 		func(c *Ctx) int { return c.Pick(300, 1500) }, judgeC01, wfAssume)
 	wfProperty("C02", "exploration",
 		"same generator as C01; accepted programs are compiled and executed with instrumented providers; for every fault-free injector call the reference model's designated source of every provider parameter, struct field, selected field and of the result is evaluated over the observed trace (value trees with pointer identity classes), and the set of providers that ran must equal the needed set, each exactly once. Non-trivial = injector with >=3 needed types and a shared dependency, binding, field or struct step.",
-		func(c *Ctx) WFOpts { return WFOpts{NoFaults: true} },
+		func(c *Ctx) WFOpts { return WFOpts{NoFaults: true, Names: 30} },
 		func(c *Ctx) int { return c.Pick(300, 1500) }, judgeC02, wfAssume)
 	wfProperty("C03", "fault_enumeration",
 		"programs from the WF generator biased to cleanup/error providers; for every injector EVERY error-capable provider in its needed set is failed in turn (enumerated), followed by a rapid-drawn sequence of 3-12 further calls alternating failures and successes; oracle per faulted call: no call after the failing one, cleanups of the already succeeded cleanup providers exactly once in reverse acquisition order, the failing provider's own cleanup never runs, zero result, nil cleanup, the identical error value; successes in the sequence must be complete correct runs and the same (injector, fault) must always produce the same event shape. evaluations = programs; faulted injector calls are reported in notes. Non-trivial = injector with >=2 error-capable providers and >=1 cleanup provider.",
-		func(c *Ctx) WFOpts { return WFOpts{MoreErr: true, Sequences: true} },
+		func(c *Ctx) WFOpts { return WFOpts{MoreErr: true, Sequences: true, Names: 30} },
 		func(c *Ctx) int { return c.Pick(300, 1500) }, judgeC03, wfAssume)
 	wfProperty("C04", "exploration",
 		"programs from the WF generator biased to cleanup providers; on every fault-free call of an injector declaring a cleanup result: returned function non-nil (also with zero cleanup providers), no provider cleanup before the caller's invocation, afterwards exactly the cleanups of the cleanup providers that ran, once each, in the exact reverse of the observed call order, and (independently) before the cleanup of any transitive dependency. Non-trivial = >=3 cleanup providers not on a single dependency chain.",
-		func(c *Ctx) WFOpts { return WFOpts{MoreErr: true, NoFaults: true} },
+		func(c *Ctx) WFOpts { return WFOpts{MoreErr: true, NoFaults: true, Names: 30} },
 		func(c *Ctx) int { return c.Pick(300, 1500) }, judgeC04, wfAssume)
 }
 
@@ -435,4 +435,46 @@ func judgeC10Accept(c *Ctx, e *ProgEval, count bool) *Fail {
 		return Failf("C10 well-formed program rejected", "diagnostics:\n%s\nstderr: %s", e.Obs.DiagText(), tailStr(e.Obs.Stderr, 1500))
 	}
 	return nil
+}
+
+// ---------------------------------------------------------------------------
+// C14: adversarial naming never changes behaviour.
+
+func judgeC14(c *Ctx, e *ProgEval, count bool) *Fail {
+	if !wfGate(c, e) || e.Obs.Status == "panic" {
+		return nil
+	}
+	if !e.Accepted() {
+		return Failf("C14 renamed well-formed program rejected", "diagnostics:\n%s", e.Obs.DiagText())
+	}
+	for _, j := range []func(*Ctx, *ProgEval, bool) *Fail{judgeC01, judgeC02, judgeC03, judgeC04} {
+		if f := j(c, e, false); f != nil {
+			f.Kind = "C14 under adversarial names: " + f.Kind
+			return f
+		}
+	}
+	if count {
+		classifyWF(c, e, "C14")
+		c.Nontrivial(e.Spec.Hash())
+		if e.Spec.Extra != "" {
+			c.Class("package-level err/cleanup/helper names declared")
+		}
+		dup := map[string]int{}
+		for _, p := range e.Spec.Pkgs {
+			dup[p.Name]++
+		}
+		for _, k := range dup {
+			if k > 1 {
+				c.Class("same package name in two directories")
+			}
+		}
+	}
+	return nil
+}
+
+func init() {
+	wfProperty("C14", "exploration",
+		"WF programs (biased to error+cleanup paths, several packages and injectors) passed through the naming layer: package names from an adversarial pool (err, err2, cleanup, context, fmt, names equal to the unexported form of a type name, the same name in two directories, directory != package name, non-ASCII), import aliases, type names (Err, Cleanup, Error, String, keywords after case folding such as Type/Func/Select/Range, Foo/Foo2/Foo_2, unexported err/cleanup in the injector's package), provider, set and injector names, parameter names (err, cleanup, error, string, int, nil, true, len, make, any, blank, missing), plus package-level declarations named err, err2, cleanup, cleanup2, _wire<T>Value and the locals Wire would derive from type names. Oracle (metamorphic, through the name-independent reference model): the renamed program is accepted, compiles (C01 oracle incl. signature identity) and its runtime trace keyed by logical provider ids satisfies the wiring, failure (every error-capable provider failed in turn; identical error value) and cleanup oracles of C02-C04, i.e. behaves exactly as its canonically named twin. Every renamed program is non-trivial; distinct by program hash.",
+		func(c *Ctx) WFOpts { return WFOpts{MoreErr: true, Names: 100} },
+		func(c *Ctx) int { return c.Pick(300, 1500) }, judgeC14, wfAssume)
 }
